@@ -479,6 +479,39 @@ def rules(ctx: Ctx) -> None:
             ctx.ob("R17.3", f"root-is-the-configured-directory-or-the-file's-folder:{f.owner}", ok, loc(f.mod, st),
                    f"`{u(st)[:80]}`: {why}")
     ctx.floor("assignments of the guard's root", n_root, 2)
+    # ---- R17.4 a request's data lives in the locals of the request: the application object (and the module) is shared by every request the
+    # threaded server handles at the same time, so nothing is written to it while a request is served (a path checked for one request and
+    # read back for another; a result built for one script and returned for another)
+    served = {disp.qual} | {h.qual for h in handlers}
+    served |= {q for q in prog.reachable_from(sorted(served)) if q in prog.funcs and prog.funcs[q].mod is app_cls.mod}
+    n_srv = 0
+    for q in sorted(served):
+        f = prog.funcs[q]
+        globs = {nm for n in prog.walk_fn(f) if isinstance(n, ast.Global) for nm in n.names}
+        for n in prog.walk_fn(f):
+            tgt = None
+            if isinstance(n, (ast.Attribute, ast.Subscript)) and isinstance(n.ctx, (ast.Store, ast.Del)):
+                tgt = n
+            elif isinstance(n, ast.Name) and isinstance(n.ctx, ast.Store) and n.id in globs:
+                tgt = n
+            elif isinstance(n, ast.Call) and isinstance(n.func, ast.Name) and n.func.id == "setattr" and n.args:
+                tgt = n.args[0]
+            if tgt is None:
+                continue
+            root = tgt
+            while isinstance(root, (ast.Attribute, ast.Subscript)):
+                root = root.value
+            if not isinstance(root, ast.Name):
+                continue
+            shared = (root.id == "self" and f.cls is app_cls) or root.id in globs or (
+                not prog.local_defs(f, root.id) and root.id not in f.params() and prog.resolve(f.mod.name, root.id, f)[0] in ("var", "class"))
+            if shared:
+                n_srv += 1
+                ctx.ob("R17.4", f"request-data-stays-in-locals:{f.owner}:{u(tgt)[:40]}", False, loc(f.mod, n),
+                       f"`{u(prog.enclosing_stmt(n))[:70]}` writes to an object shared by all requests while one request is served")
+    ctx.ob("R17.4", "request-data-stays-in-locals:scanned", True, app_cls.loc(), f"{len(served)} functions that serve requests scanned, {n_srv} write(s) to shared objects", trivial=True)
+    ctx.floor("functions that serve requests", len(served), 3)
+
     # ---- R17.3 observation -------------------------------------------------------------
     init = app_cls.methods.get("__init__")
     if init is not None:
